@@ -62,7 +62,26 @@ def adam_grid(full):
 
 def run(ctx):
     if ctx.replay:
-        return HC.replay_file(ctx, ctx.replay, KINDS, "Optim", RP, set_consts=("Scales", "Acts"), raw_consts=("Hypers",))
+        import json, os, tempfile
+        rp = json.load(open(ctx.replay))
+        h0 = (rp["replay"]["history"] or [{}])[0]
+        amb = h0.get("kind") == "sgd" and h0.get("h", {}).get("maximize") and h0.get("h", {}).get("wd", [0])[0] != 0
+        if not amb:
+            return HC.replay_file(ctx, ctx.replay, KINDS, "Optim", RP, set_consts=("Scales", "Acts"), raw_consts=("Hypers",))
+        # the documented ambiguity: a violation only if neither variant explains the history
+        rcs = []
+        for variant in ("negate_first", "flip_last"):
+            rp["replay"]["consts"]["Variant"] = variant
+            fd, tmp = tempfile.mkstemp(suffix=".json", dir=tlc.scratch())
+            with os.fdopen(fd, "w") as f:
+                json.dump(rp, f)
+            print("-- variant", variant)
+            rcs.append(HC.replay_file(ctx, tmp, KINDS, "Optim", RP, set_consts=("Scales", "Acts"), raw_consts=("Hypers",)))
+        if all(r != 0 for r in rcs):
+            print("VIOLATION property=%s replay=%s" % (ctx.pid, ctx.replay))
+            return 1
+        print("replay: explained by one of the two documented variants: no divergence")
+        return 0
     rep = core.Report(ctx, "model_checking", assumptions=[
         "hyper-parameters from dyadic grids (exactly representable); eps exaggerated (1/8, 1/1024) so that its placement is visible",
         "Adam/AdamW: only behaviours whose square roots are rational are explored (constant |g| per element, first step under weight decay)",
